@@ -81,7 +81,7 @@ def _judge_once(ctx, n, edges, after_edit=False):
         return frozenset((ia, ib)) in eset
 
     try:
-        seqs = G.group_sound_events(evs, cmp)
+        seqs = G.group_sound_events(tuple(evs) if (n + len(edges)) % 4 == 1 else evs, cmp)
     except Exception as e:
         ctx.violate_exc("raises", f"raises:{type(e).__name__}", e, spec=spec)
         return None
